@@ -307,6 +307,8 @@ fn random_worker(
     let slot = Slot::open(&env.slot_dir, worker);
     let stride = (cases / 24).max(1);
     let shrink_deadline: RefCell<Option<Instant>> = RefCell::new(None);
+    // the first failing case as generated (before shrinking): reported if the shrunk case turns out to be flaky
+    let first_fail: RefCell<Option<(Vec<u8>, String, String, String)>> = RefCell::new(None);
     let res = runner.run(&strat, |b| {
         let counting = !*failed.borrow();
         if !counting {
@@ -330,13 +332,20 @@ fn random_worker(
             stats.borrow_mut().absorb(&ctx, &v);
         }
         match v {
-            Verdict::Fail { sig, .. } => {
+            Verdict::Fail { sig, detail } => {
                 if let Some(id) = is_known(&env.findings, &sig) {
                     if counting {
                         *stats.borrow_mut().known_hits.entry(id).or_default() += 1;
                     }
                     Ok(())
                 } else {
+                    if first_fail.borrow().is_none() {
+                        if let CaseData::Bytes(b) = &data {
+                            // describe it now: a schedule-dependent failure may not come back
+                            let (_, c2) = exec_case(part.run, &data, 0, env.thorough, true, false);
+                            *first_fail.borrow_mut() = Some((b.clone(), sig.clone(), detail.clone(), c2.desc.unwrap_or_default()));
+                        }
+                    }
                     *failed.borrow_mut() = true;
                     Err(TestCaseError::fail(sig))
                 }
@@ -365,13 +374,24 @@ fn random_worker(
                     break;
                 }
             }
-            Some(out.unwrap_or(Failure {
-                part: part.name,
-                data,
-                exh: 0,
-                sig: "flaky".into(),
-                detail: "failure did not reproduce in 25 re-executions of the shrunk case".into(),
-                desc: String::new(),
+            Some(out.unwrap_or_else(|| match first_fail.borrow_mut().take() {
+                // the shrunk case does not fail reliably (schedule / hash-order dependent): report the case as first observed
+                Some((b, sig, detail, desc)) => Failure {
+                    part: part.name,
+                    data: CaseData::Bytes(b),
+                    exh: 0,
+                    sig,
+                    detail: format!("{} [intermittent: the shrunk case did not fail again in 25 re-executions, this is the case as first observed]", detail),
+                    desc,
+                },
+                None => Failure {
+                    part: part.name,
+                    data,
+                    exh: 0,
+                    sig: "flaky".into(),
+                    detail: "failure did not reproduce in 25 re-executions of the shrunk case".into(),
+                    desc: String::new(),
+                },
             }))
         }
         Err(TestError::Abort(r)) => Some(Failure {
